@@ -22,7 +22,7 @@ add("C01", "replicate ensembles of real Sampler.run() in separate processes vs c
 add("C02", "replicate ensembles vs closed-form evidence (two-stage rule) + deterministic RNG-state-hash monitor at every pipeline step boundary of every run (shared or repeated state = shared innovations) + batch-means F test",
     "Evidence bias judged on R=48/96 runs per cell (se ~0.013 nat at N=128) over 14 / 90 cells; independence decided deterministically: 1e4-1e5 RNG states hashed at step boundaries, any state shared by two seeds or recurring within a run is a witness.",
     "Trusted: numpy global stream is the only randomness source (private generators are caught by C09/C13 instead); closed-form logZ.")
-add("C03", "injected randomness: RNG interposer serves chosen gamma/normal/uniform draws to three consecutive sweeps of the real TPCNRunner/RWMRunner object, outcome compared with the tpCN/RWM specification (exact fold, scipy multivariate_t ratio, accept probes at alpha(1+-1e-9), one draw per proposal, out-of-cube rejection); distributional invariance on exact pi_beta draws (paired z, confirm on fresh batch); pipeline cells with the library's own clusterer",
+add("C03", "injected randomness: RNG interposer serves chosen gamma/normal/uniform draws to three consecutive sweeps of the real TPCNRunner/RWMRunner object, outcome compared with the tpCN/RWM specification (exact fold, scipy multivariate_t ratio, accept probes at alpha(1+-1e-6), one draw per proposal, out-of-cube rejection); distributional invariance on exact pi_beta draws (paired z, confirm on fresh batch); pipeline cells with the library's own clusterer",
     "2000/20000 cases x 3 sweeps decide proposal map, gamma parameters, acceptance factor, accept rule and state carried between sweeps exactly; 22/200 invariance cells x 2e4/1e5 walkers decide pi_beta-invariance per kernel x boundary kind x covariance structure at z>5 twice.",
     "Trusted: scipy.stats.multivariate_t/truncnorm/vonmises; invariance shown for the exactly samplable families only. Known findings: tpcn+periodic, tpcn+reflective, rwm+reflective+correlated, state-dependent-assignment.")
 add("C04", "runtime monitor: real StateManager.compute_logw_and_logz vs independent long-double reference model on generated and recorded histories (incl. 30-70 iterations, 2e4-sample batches, one history above 2^24 mixture elements), repeated requests on one manager, metamorphic relations, FP-exception trap",
